@@ -38,7 +38,8 @@ def PInW (w : World) (pin : PIn) : Prop :=
 theorem CLoc.mono_log {c : Consumer} {stored st : List UMsg} {psess : Nat} (h : CLoc c stored psess) :
     CLoc c (stored ++ st) psess :=
   ⟨h.sess, h.fresh, fun b hb => List.mem_append_left _ (h.buf b hb), h.buflen,
-    fun d hd => ⟨List.mem_append_left _ (h.infl d hd).1, (h.infl d hd).2⟩, h.win, h.ce, h.nf⟩
+    fun d hd => ⟨List.mem_append_left _ (h.infl d hd).1, (h.infl d hd).2⟩, h.win, h.ce, h.nf,
+    by rw [List.length_append]; exact Nat.le_trans h.cle (Nat.le_add_right _ _)⟩
 
 theorem COutOK.mono_log {c : Consumer} {stored st : List UMsg} {x : COut} (h : COutOK c stored x) :
     COutOK c (stored ++ st) x := by
@@ -122,12 +123,12 @@ theorem Inv.stepC {w : World} {m : Mon} (h : Inv w m) (cin : CIn) (hin : CInOK w
   · intro x hx
     have hx : x ∈ w.netCP ++ cpOf (w.c.handle cin w.now).2 := hx
     rcases List.mem_append.mp hx with hx | hx
-    · exact (h.netCP x hx).lift hc.mono hc.sess
+    · exact (h.netCP x hx).lift hc.mono hc.sess hc.wnd hc.cmono
     · exact hc.outs _ (mem_cpOf hx)
   · intro d hd
     have hd : d ∈ w.inboxC ++ cuOf (w.c.handle cin w.now).2 := hd
     rcases List.mem_append.mp hd with hd | hd
-    · exact (h.inboxC d hd).lift hc.mono hc.sess
+    · exact (h.inboxC d hd).lift hc.mono hc.sess hc.wnd hc.cmono
     · exact hc.outs _ (mem_cuOf hd)
 
 /-- the invariant only speaks about members of the links and mailboxes: losing messages keeps it -/
@@ -156,8 +157,8 @@ theorem PInW.ofNet {w : World} {m : Mon} (h : Inv w m) (x : CMsg) (hx : x ∈ w.
   have := h.netCP x hx
   cases x with
   | register n => exact ⟨trivial, fun e => by rcases e with ⟨_, _, _, _, _, e⟩ | ⟨_, _, _, e⟩ <;> cases e⟩
-  | request s n c u v => exact ⟨this.1, fun _ => this.2⟩
-  | ack s n c => exact ⟨trivial, fun _ => this⟩
+  | request s n c u v => exact ⟨this.1, fun _ => this.2.1⟩
+  | ack s n c => exact ⟨trivial, fun _ => this.1⟩
 
 theorem CInOK.ofNet {w : World} {m : Mon} (h : Inv w m) (x : PMsg) (hx : x ∈ w.netPC) :
     CInOK w.stored w.p.session w.c (.fromProducer x) := by
@@ -344,7 +345,7 @@ theorem Inv.init (window interval : Nat) (dc : Bool) :
   have hm : Mon.run {} (World.init window interval dc).initObs = {} := by
     simp [World.initObs, World.init, Consumer.register, cstateOf, Mon.run, Mon.step]
   rw [hm]
-  refine ⟨⟨?_, ?_, rfl, ?_, ?_, ?_, ?_⟩, ⟨Nat.le_refl _, Nat.le_refl _, ?_⟩, ⟨Or.inl rfl, ?_, ?_, ?_, ?_, ?_, rfl, rfl⟩,
+  refine ⟨⟨?_, ?_, rfl, ?_, ?_, ?_, ?_⟩, ⟨Nat.le_refl _, Nat.le_refl _, ?_⟩, ⟨Or.inl rfl, ?_, ?_, ?_, ?_, ?_, rfl, rfl, ?_⟩,
     ⟨rfl, ?_, ?_, rfl, rfl, rfl⟩, rfl, ?_, ?_, ?_, ?_, fun _ => rfl⟩
   all_goals simp [World.init, Consumer.register, Indexed, cpOf, COutOK]
 
